@@ -881,7 +881,7 @@ def report_text_disagreement(ctx, CNF, stream, t, u, meta, g, m):
                       dict(rp, theorem='parse_sound'), True, site='parse_dimacs', cls=cls)
     else:
         ctx.violation('correspondence', 'reader verdicts differ (implementation %r, model %r); Dimacs.v parse_dimacs no longer follows the code'
-                      % (gs[:3], ms[:3]), dict(rp, correspondence='Dimacs.v parse_dimacs <-> parsedimacs.parse_dimacs'), False,
+                      % (brief(gs)[:3], brief(ms)[:3]), dict(rp, correspondence='Dimacs.v parse_dimacs <-> parsedimacs.parse_dimacs'), False,
                       site='parse_dimacs', cls=cls)
 
 
